@@ -382,7 +382,7 @@ func init() {
 	fw.Register(&fw.Prop{
 		ID:    "C14",
 		Level: "exploration",
-		Rule: "random histories of 1-12 Extend calls (package level; on built-ins at every depth looked up by name or alias; on earlier extensions, forming chains and siblings) with predicates from a family (always true/false, prefix, contains, length-/limit-dependent, a copy of a built-in sibling's detector, accepts-empty), names partly with upper-case letters and sometimes re-used for a second format, 0-2 aliases, each name looked up before and after its registration; after each history ~80 inputs (seeds + inputs built to satisfy one or several extension predicates + the empty input) x 3 limits are compared with the independent walk model, with the pre-history baseline when every extension rejects, Lookup is checked for every name and alias, and values returned mid-history are re-read at the end. Thousands of histories per child use the reset hook; a sample runs one history per fresh process without it; rounds of 8 goroutines registering concurrently are checked for lost registrations. " +
+		Rule: "random histories of 1-12 Extend calls (package level; on built-ins at every depth looked up by name or alias; on earlier extensions, forming chains and siblings) with predicates from a family (always true/false, prefix, contains, length-/limit-dependent, a copy of a built-in sibling's detector, accepts-empty), names partly with upper-case letters and sometimes re-used for a second format, 0-2 aliases (in one history in five 2-3 extensions are a family registered from a table: every member's Extend call is handed the SAME slice listing all members' names and aliases and a family name; model and checks go by a copy the library never sees), each name looked up before and after its registration; after each history ~80 inputs (seeds + inputs built to satisfy one or several extension predicates + the empty input) x 3 limits are compared with the independent walk model, with the pre-history baseline when every extension rejects, Lookup is checked for every name and alias, and values returned mid-history are re-read at the end. Thousands of histories per child use the reset hook; a sample runs one history per fresh process without it; rounds of 8 goroutines registering concurrently are checked for lost registrations. " +
 			"non-trivial = a detection classified under an extension (measured with the model); distinct = distinct (history shape: attach-point class + predicate kind per step, depth of the reported path).",
 		Assumptions: []string{
 			"the model inserts each extension in front of the siblings present at registration time (the statement's rule)",
